@@ -504,7 +504,13 @@ func reduceDepth(r *mon.Run, d account.AccountDatabase, c Case, f rawFinding, bu
 		}
 		sig := "C04:twin-root:unexplained:" + cls + ":" + kind + suffix
 		if ing, ok := needs(m, fm, differs); ok {
-			sig = "C04:twin-root:needs-" + ing + ":" + trigger + ":" + kind
+			// Existence disagreements caused by empty-account deletion are split by what was
+			// reverted (reads only / mutators) and by which side keeps the account; the other
+			// classes are named by the ingredient alone.
+			sig = "C04:twin-root:needs-" + ing
+			if ing == "empty-account-deletion" {
+				sig += ":" + trigger + ":" + kind
+			}
 			w.Needs = ing
 		}
 		r.Violation(sig,
